@@ -107,6 +107,7 @@ class Gen:
             "with_faults": r.random() < (0.4 if self.prop == "C07" else 0.3),
             "p_inject": r.choice([0.1, 0.2, 0.35]),
             "nan_train": r.random() < 0.25,
+            "p_reuse": r.choice([0.0, 0.1, 0.25]),
             "w": {
                 "build": r.choice([2, 3, 5]),
                 "eval": r.choice([6, 8, 12]),
@@ -741,9 +742,27 @@ class Gen:
                 part = "group" if (has_group and r.random() < (0.6 if self.prop in ("C10", "C17") else 0.4)) else "common"
             train_spec = self.frames[d["train"]]
             kinds = cfg["kinds"]
+            op = {"op": "eval", "target": target, "root": root, "part": part, "depth": depth}
+            # prediction loops: evaluate a frame object that was used (and maybe refilled) before
+            prev = [o for o in ops if o["op"] == "eval" and o["root"] == root and o["part"] == part]
+            if kind is None and prev and r.random() < cfg["p_reuse"]:
+                src = r.choice(prev)
+                for key in ("frame", "kind", "idx", "twin", "polluted", "broken"):
+                    if key in src:
+                        op[key] = src[key]
+                rid = f"r{self._oid}"
+                self._oid += 1
+                op["id"] = rid
+                op["reuse"] = True
+                op["fault"] = None if canary else self.fault(cfg, "eval")
+                add(op)
+                results.append({"id": rid, "root": root, "part": part, "parent": target, "depth": depth})
+                if len(results) > 8:
+                    old = results.pop(0)
+                    add({"op": "drop", "target": old["id"]})
+                return
             if kind is None:
                 kind = r.choices(list(kinds), [kinds[k] for k in kinds])[0]
-            op = {"op": "eval", "target": target, "root": root, "part": part, "depth": depth}
             if kind == "rows":
                 idx = self.rows_frame(train_spec, fm, d["na_action"])
                 if idx is None:
